@@ -56,8 +56,8 @@ impl Check for C18 {
     }
     fn budget(&self, tier: Tier) -> u64 {
         match tier {
-            Tier::Quick => 40_000,
-            Tier::Thorough => 2_000_000,
+            Tier::Quick => 200_000,
+            Tier::Thorough => 5_000_000,
         }
     }
     fn run(&self, ch: &mut Chooser, _tier: Tier) -> RunOutcome {
